@@ -175,6 +175,9 @@ def main():
             except Exception:
                 pass
     ms = [m for m in ms if m["id"] not in done]
+    if "--only-ids" in a:
+        want = set(l.strip() for l in open(a[a.index("--only-ids") + 1]) if l.strip())
+        ms = [m for m in ms if m["id"] in want]
     if limit:
         import random
         random.Random(1).shuffle(ms)
